@@ -165,6 +165,133 @@ theorem visiting_order_counterexample :
       inVisitingOrder id vis₁ ≠ inVisitingOrder id vis₂ :=
   ⟨["A=1", "B=2"], ["B=2", "A=1"], List.Perm.swap _ _ _, by decide⟩
 
+/-! ## `Set.SortedItems`, `sorted()`, the import cache -/
+
+/-- the full statement for `Set.SortedItems` (printing, iterating, `list()`, `sorted()` of a
+    set): for every set and every two visiting orders of its hash keys the listing is the same -/
+def sortedItems_full : Prop :=
+  ∀ vis₁ vis₂ : List HKey, vis₁.Perm vis₂ → sortedItems vis₁ = sortedItems vis₂
+
+/-- guard: no member of the set is a NaN float -/
+def nanKey : HKey := ⟨"float", 0, "", 0, true⟩
+def fltKey (ord : Int) : HKey := ⟨"float", 0, "", ord, false⟩
+
+/-- `sortedItems_full` is false: a NaN is neither less than nor greater than any float, so
+    `{NaN, 1.0, 2.0}` is listed as `NaN, 1, 2` / `1, NaN, 2` / `1, 2, NaN` / `2, NaN, 1` …
+    depending on where the map iteration delivers the NaN -/
+theorem sortedItems_counterexample_nan : ¬ sortedItems_full := by
+  intro h
+  have := h [fltKey 2, nanKey, fltKey 1] [nanKey, fltKey 2, fltKey 1]
+    (List.Perm.swap _ _ _)
+  revert this
+  decide
+
+/-- **`Set.SortedItems` for every NaN-free set**: for all sets of any size and content (ints,
+    floats, strings, bools, nil, bytes, byte slices; the keys need not even be distinct) and
+    every two visiting orders, the listing is the same.  Rests on the comparator examining
+    every field of the hash key (`hkLess_incomp`): a comparator that skips a field — say the
+    float value — leaves keys that differ only there in visiting order. -/
+theorem sortedItems_perm_invariant {vis₁ vis₂ : List HKey} (h : vis₁.Perm vis₂)
+    (hn : noNaN vis₁ = true) : sortedItems vis₁ = sortedItems vis₂ := by
+  unfold sortedItems
+  congr 1
+  refine isort_unique_pred hkGe (fun k => k.nan = false) hkGe_trans hkGe_total hkGe_antisymm
+    (((List.reverse_perm vis₁).trans h).trans (List.reverse_perm vis₂).symm) ?_
+  intro x hx
+  have := List.all_eq_true.1 hn x (List.mem_reverse.1 hx)
+  simpa using this
+
+/-- the listing is sorted (each item is not less than its predecessor) and contains exactly
+    the visited keys; so it is the list Go's `sort.Slice` returns -/
+theorem sortedItems_sorted_perm (vis : List HKey) (hn : noNaN vis = true) :
+    (sortedItems vis).Pairwise (fun a b => hkLess b a = false) ∧ (sortedItems vis).Perm vis := by
+  unfold sortedItems
+  constructor
+  · have hs := isort_sorted_on hkGe (fun k => k.nan = false) hkGe_trans hkGe_total vis.reverse (by
+      intro x hx
+      have := List.all_eq_true.1 hn x (List.mem_reverse.1 hx)
+      simpa using this)
+    rw [List.pairwise_reverse]
+    refine hs.imp ?_
+    intro a b hab
+    simpa [hkGe] using hab
+  · exact (List.reverse_perm _).trans ((isort_perm hkGe _).trans (List.reverse_perm _))
+
+/-- iterating a NaN-free set (`for x in s`, `list(s)`, unpacking) visits exactly the ordered
+    listing, for every visiting order of the underlying Go map -/
+theorem iterItems_perm_invariant {vis₁ vis₂ : List HKey} (h : vis₁.Perm vis₂)
+    (hn : noNaN vis₁ = true) : iterItems vis₁ = iterItems vis₂ ∧ iterItems vis₁ = sortedItems vis₁ := by
+  unfold iterItems
+  rw [sortedItems_perm_invariant h hn]
+  refine ⟨rfl, ?_⟩
+  rw [← sortedItems_perm_invariant h hn]
+  have key : ∀ l : List HKey, (∀ k ∈ l, (!k.nan) = true) → l.takeWhile (fun k => !k.nan) = l := by
+    intro l
+    induction l with
+    | nil => intro _; rfl
+    | cons a l ih =>
+      intro hl
+      rw [List.takeWhile_cons, hl a (List.mem_cons_self ..), if_pos rfl, ih (fun k hk => hl k (List.mem_cons_of_mem _ hk))]
+  apply key
+  intro k hk
+  have hk' : k ∈ vis₁ := (sortedItems_sorted_perm vis₁ hn).2.mem_iff.1 hk
+  exact List.all_eq_true.1 hn k hk'
+
+/-- … and with a NaN member the iteration stops where the NaN happens to be listed:
+    `list({NaN, 1.0, 2.0})` is `[]`, `[1]` or `[1, 2]` -/
+theorem iterItems_counterexample_nan :
+    iterItems [nanKey, fltKey 2, fltKey 1] = [] ∧ iterItems [fltKey 2, fltKey 1, nanKey] = [fltKey 1, fltKey 2] := by
+  decide
+
+/-- **`sorted(set, cmp)` / `sorted(map, cmp)`**: for every NaN-free set, every comparison
+    function that is a strict weak order (given by the rank it assigns to each item; ties
+    allowed) and every two visiting orders the result is the same — because the stable sort
+    starts from the ordered listing -/
+theorem sorted_builtin_perm_invariant (rank : HKey → Int) {vis₁ vis₂ : List HKey}
+    (h : vis₁.Perm vis₂) (hn : noNaN vis₁ = true) :
+    sortedBuiltin rank vis₁ = sortedBuiltin rank vis₂ := by
+  unfold sortedBuiltin
+  rw [sortedItems_perm_invariant h hn]
+
+/-- … whereas a stable sort that starts from the visiting order itself keeps tied items in
+    that order: with `cmp` unable to tell `"fig"` from `"yam"`, two different results -/
+theorem stable_sort_of_visiting_order_counterexample :
+    ∃ (rank : String → Int) (vis₁ vis₂ : List String), vis₁.Perm vis₂ ∧
+      stableSortBy rank vis₁ ≠ stableSortBy rank vis₂ :=
+  ⟨fun s => s.length, ["fig", "yam"], ["yam", "fig"], List.Perm.swap _ _ _, by decide⟩
+
+/-- the stable sort is stable and sorts: tied items keep their relative order -/
+example : stableSortBy (fun s : String => (s.length : Int)) ["pear", "fig", "kiwi", "yam", "date"]
+    = ["fig", "yam", "pear", "kiwi", "date"] := by decide
+
+/-- **the import cache** (`VirtualMachine.applyOptions`): for all globals (distinct names)
+    and every two visiting orders the same module is cached under every name — each module
+    is entered under the name of the global that holds it and under no other name -/
+theorem module_cache_perm_invariant {vis₁ vis₂ : List (String × Option (String × Nat))}
+    (h : vis₁.Perm vis₂) (hd : KeysDistinct vis₁) : moduleCache vis₁ = moduleCache vis₂ :=
+  insert_fold_perm_invariant _ _ h hd AMap.empty
+
+/-- `import X` resolves to the module held by the global called `X` (and not to a module
+    that merely calls itself `X`) -/
+example : moduleCache [("conf", some ("conf", 1)), ("conf_dev", some ("conf", 2)), ("n", none)] "conf" = some ("conf", 1)
+    ∧ moduleCache [("conf_dev", some ("conf", 2)), ("conf", some ("conf", 1))] "conf" = some ("conf", 1)
+    ∧ moduleCache [("conf_dev", some ("conf", 2))] "conf" = none := by decide
+
+/-- … whereas entering a module also under its own name makes two globals whose modules
+    share a name race for that entry -/
+theorem module_cache_alias_counterexample :
+    moduleCacheAlias [("conf", some ("conf", 1)), ("conf_dev", some ("conf", 2))] "conf" = some ("conf", 2) ∧
+    moduleCacheAlias [("conf_dev", some ("conf", 2)), ("conf", some ("conf", 1))] "conf" = some ("conf", 1) := by
+  decide
+
+/-- non-vacuity: a NaN-free set with a member of every hashable type, two visiting orders -/
+example : noNaN [fltKey 3, ⟨"int", 3, "", 0, false⟩, ⟨"string", 0, "a", 0, false⟩, fltKey (-1)] = true
+    ∧ sortedItems [fltKey 3, ⟨"int", 3, "", 0, false⟩, ⟨"string", 0, "a", 0, false⟩, fltKey (-1)]
+      = [fltKey (-1), fltKey 3, ⟨"int", 3, "", 0, false⟩, ⟨"string", 0, "a", 0, false⟩] := by decide
+
+/-- the guard really excludes something -/
+example : noNaN [fltKey 2, nanKey] = false := by decide
+
 /-! ## the compiler and the VM on the language fragment -/
 
 /-- `compiler.New` sorts the global names it is given: compilation (and hence evaluation)
